@@ -42,6 +42,33 @@ pub fn gen_case(r: &mut Rng, max: usize, allow_neg_circuit: bool) -> (Model, &'s
         }
         return (m, "magnitude_2^62_alternating", "dag");
     }
+    if r.below(40) == 0 {
+        // Distances more than isize::MAX apart although every walk weight
+        // fits: one root, a "high" group at about +2^62 and a "low" group at
+        // about -2^62, arcs root->high, root->low, high->high, high->low and
+        // low->low only (acyclic along a fixed order inside each group), so the
+        // longest walk weighs at most 2^62 + small in absolute value.
+        const H: i64 = 1 << 62;
+        let n = r.range(3, max.clamp(3, 10));
+        let mut ids: Vec<usize> = (0..n).collect();
+        r.shuffle(&mut ids);
+        let k = r.range(1, n - 2); // high group: positions 1..=k, low group: k+1..n
+        let mut m = Model::new(n);
+        for j in 1..n {
+            if j == 1 || j == k + 1 || r.chance(0.6) {
+                let w = if j <= k { H - r.irange(0, 20) } else { -H - r.irange(0, 20) };
+                m.add(ids[0], ids[j], w);
+            }
+        }
+        for i in 1..n {
+            for j in (i + 1)..n {
+                if r.chance(0.5) {
+                    m.add(ids[i], ids[j], r.irange(-3, 20));
+                }
+            }
+        }
+        return (m, "distances_2^63_apart", "dag");
+    }
     let wf = r.below(WFAMS.len());
     let n = if r.chance(0.3) { gen::algo_order(r, max, 65) } else { gen::small_order(r, max) };
     let big = n > max;
